@@ -18,6 +18,8 @@ pub enum Case {
     /// ONE calculator whose separators are switched through the setters between evaluations:
     /// sequence of convention indices; after every switch every literal is read again
     Switched(Vec<usize>),
+    /// a literal with grouping, fraction and magnitude suffix: (canonical, grouped, suffix, factor, convention, form)
+    Suffixed(String, bool, String, f64, usize, u8),
     /// an expression tree of the C02 generator with fractional / large literals: rendered (style,
     /// grouped?) and evaluated under every convention against the reference evaluator
     Tree(crate::model::arith::Expr, crate::model::arith::Style, bool),
@@ -171,6 +173,18 @@ impl Prop for C08 {
             ));
         }
         f.push(Family::new(
+            "suffixed-literals",
+            Mode::Full,
+            "literals that carry a thousands separator, a fraction and a magnitude suffix at once ('1.500,5k', '12.345,67k', '1,5k', '2.000k', '1.234,5678M') under all 4 conventions, alone, '+ 1', '/ 2' and through a variable: the intended number scaled by the suffix",
+            move |ch| {
+                let (c, grouped) = *ch.pick(&[("1500.5", true), ("12345.67", true), ("1.5", false), ("2000", true), ("1234.5678", true), ("1500.5", false)]);
+                let (suf, mult) = *ch.pick(&[("k", 1e3), ("M", 1e6)]);
+                let k = ch.choose(4);
+                let form = ch.choose(4) as u8;
+                Some(Case::Suffixed(c.to_string(), grouped, suf.to_string(), mult, k, form))
+            },
+        ));
+        f.push(Family::new(
             "other-separators",
             Mode::Full,
             "conventions the setters accept beyond ',' and '.': (decimal, thousands) in [(',' '''), ('.' ' '), ('.' '_'), (',' ' '), (';' '.'), ('.' '''), ('·' ',')] x literals [1234.5, 1000000, 12.5, 0.25, 999] plain and grouped x (alone, 'L * 2', 'L km to m'): the literal denotes the intended number and the result prints with the configured separators",
@@ -289,6 +303,30 @@ impl Prop for C08 {
                     }
                 }
                 v.observed = seen.join(" ;; ");
+                v
+            }
+            Case::Suffixed(c, g, suf, mult, k, form) => {
+                let conv = &convs[*k];
+                let l = format!("{}{}", lit::render(c, conv, *g), suf);
+                let x = lit::value(c) * mult;
+                let (text, want) = match form {
+                    0 => (l.clone(), x),
+                    1 => (format!("{} + 1", l), x + 1.0),
+                    2 => (format!("{} / 2", l), x / 2.0),
+                    _ => (format!("budget = {}\nbudget / 2", l), x / 2.0),
+                };
+                let run = obs::eval(ctx.calc(&Cfg::seps(&conv.dec, &conv.thou)), "en", &text);
+                let mut v = Verdict { input: format!("[{}|{}] {}", conv.dec, conv.thou, text.replace('\n', " \\n ")), class: "literal-compared", compared: true, expected: format!("Number({:?})", want), observed: run.brief(), evals: 1, ..Default::default() };
+                match &run {
+                    Run::Panic(p) => {
+                        v.violation = Some(format!("panic: {}", p.message));
+                        v.site = Some(p.site.clone());
+                    }
+                    Run::Done(o) => match o.slots.last() {
+                        Some(Slot::Ok { val: Val::Number(y, _), .. }) if obs::close(*y, want, 1e-12) => {}
+                        _ => v.violation = Some("the suffixed literal does not denote the intended number under its convention".into()),
+                    },
+                }
                 v
             }
             Case::Other(d, t, c, g, form) => {
